@@ -113,7 +113,7 @@ def event_kinds(lines, acc):
 def run_scripts(chk, scripts, ackcap, tag, inorder=False):
     """run scripts on the real code in parallel driver processes, validate every trace with TLC.
     returns (n_traces, n_events, rejected[list of (script, result)], kinds set, stop_ms list)"""
-    vh = chk.build_vh()
+    chk.build_vh()
     d = chk.sub("fwd-" + tag)
     nsh = min(vlib.NCPU, max(1, len(scripts) // 8))
     shards = [scripts[i::nsh] for i in range(nsh)]
